@@ -1,3 +1,184 @@
-import GoStd.Bytes
+/-
+C01 — The proxy touches nothing it does not own.
+
+"Whenever the proxy relays a request or a response, the start line, every header field other than
+the routing headers it manages (Via, Route, Record-Route) - with its name, its value (modulo
+surrounding blanks), its multiplicity and its relative order - and the body bytes reach the next
+hop unchanged. The relayed message carries exactly one Content-Length field and its value equals
+the number of body bytes sent. Nothing else is added, dropped, reordered or rewritten."
+
+Model: Proxy.Model (`step`) over Sip.Message. "What the proxy does not own" is
+`Lemmas.others cm hs`: the (name, printed value) pairs of the headers outside the three owned
+classes, in message order with multiplicity (Lemmas/Others.lean). The compact-name table `cm` is
+arbitrary: no fact about it is needed (class disjointness is never used, because a replaced value
+either belongs to an owned class or prints like the value it replaces).
+
+The one hypothesis is `RoundTrips`: the proxy decodes From / To / CSeq in place and prints the
+DECODED value, so those three fields are unchanged exactly when decode-then-encode gives back the
+string that was received (restricted to the strings occurring in the message; the codec side of
+that is C14's subject). Via / Route values are owned and need no such hypothesis.
+-/
+import Lemmas.RelayRel
+import Lemmas.RelaySample
+import Lemmas.Num
+open GoStd Sip Proxy Lemmas
+
 namespace Props.C01
+
+/-- the conclusion shape of this file: same start line, same body, same not-owned headers -/
+def Untouched (cm : List (Bytes × Bytes)) (m m' : Message) : Prop :=
+  m'.start = m.start ∧ m'.body = m.body ∧ others cm m'.headers = others cm m.headers
+
+theorem untouched_of_rel {cm : List (Bytes × Bytes)} {m m' : Message} (h : Rel cm m m') : Untouched cm m m' :=
+  ⟨h.start, h.body, h.others⟩
+
+/-! ### the stages of the pipeline -/
+
+/-- Adding the own Via and Record-Route changes nothing else (no hypothesis at all). -/
+theorem C01_insertSelf (cfg : Cfg) (m : Message) (t : Listener) (branch : Bytes) :
+    Untouched cfg.cm m (insertSelf cfg m t branch) :=
+  untouched_of_rel (insertSelf_rel cfg m t branch)
+
+/-- Route learning (decodes every Via), received/rport stamping, remembering the inbound
+connection (decodes CSeq and Via) and consuming the own top Route entry change nothing else. -/
+theorem C01_handleRawMessage (cfg : Cfg) (st : St) (ev : RawEv) (hr : RoundTrips cfg.cm ev.msg.headers) :
+    Untouched cfg.cm ev.msg (handleRawMessage cfg st ev).2 :=
+  untouched_of_rel (handleRawMessage_rel cfg st ev hr)
+
+/-- Dialog bookkeeping on responses (decodes CSeq, Via, From, To) changes nothing else. -/
+theorem C01_handleDialog (cfg : Cfg) (st : St) (peerAddr : Bytes) (peerPort : Int) (m : Message)
+    (hr : RoundTrips cfg.cm m.headers) :
+    Untouched cfg.cm m (handleDialog cfg st peerAddr peerPort m).2 :=
+  untouched_of_rel (handleDialog_rel cfg st peerAddr peerPort m hr)
+
+/-- Choosing the next hop (decodes and pops Route; decodes To for the static route) changes nothing
+else. -/
+theorem C01_getNextRequestHop (cfg : Cfg) (m : Message) (hr : RoundTrips cfg.cm m.headers) :
+    Untouched cfg.cm m (getNextRequestHop cfg m).2 :=
+  untouched_of_rel (getNextRequestHop_rel cfg m hr)
+
+/-- The Route part alone needs no hypothesis. -/
+theorem C01_getNextRequestHopByRoute (cfg : Cfg) (m : Message) :
+    Untouched cfg.cm m (getNextRequestHopByRoute cfg m).2 :=
+  untouched_of_rel (getNextRequestHopByRoute_rel cfg m)
+
+/-- Popping the own Via of a response and reading the next one changes nothing else. -/
+theorem C01_responseHop (cfg : Cfg) (m : Message) :
+    Untouched cfg.cm m (getNextResponseHop cfg ((popVia cfg.cm m).getD m)).2 :=
+  untouched_of_rel ((popVia_getD_rel cfg.cm m).trans cfg.cm (getNextResponseHop_rel cfg _))
+
+/-! ### the full composition -/
+
+/-- EVERY output of one step of the proxy — request or response, towards a Route hop, a static
+route, a backend (pinned or rotated) or back along the Via chain — carries the printed form of a
+message with the start line, the body and the not-owned headers of the message received. -/
+theorem C01_step (cfg : Cfg) (st : St) (ev : RawEv) (hr : RoundTrips cfg.cm ev.msg.headers) :
+    ∀ o ∈ (step cfg st ev).2, ∃ m', outData o = m'.bytes cfg.cm ∧ Untouched cfg.cm ev.msg m' := by
+  intro o ho
+  obtain ⟨m', h1, h2⟩ := step_carries cfg st ev hr o ho
+  exact ⟨m', h2, untouched_of_rel h1⟩
+
+/-- the same for `HandleMessage` alone (any message, e.g. the one the earlier stages produced) -/
+theorem C01_handleMessage (cfg : Cfg) (st : St) (ev : RawEv) (m : Message) (hr : RoundTrips cfg.cm m.headers) :
+    ∀ o ∈ (handleMessage cfg st ev m).2, ∃ m', outData o = m'.bytes cfg.cm ∧ Untouched cfg.cm m m' := by
+  intro o ho
+  obtain ⟨m', h1, h2⟩ := handleMessage_carries cfg st ev m hr o ho
+  exact ⟨m', h2, untouched_of_rel h1⟩
+
+/-! ### exactly one Content-Length, equal to the number of body bytes -/
+
+/-- one printed header line -/
+def headerLine (h : Header) : Bytes := h.name ++ [58, 32] ++ h.value.encode ++ crlf
+
+/-- the Content-Length class -/
+def isCL (cm : List (Bytes × Bytes)) (n : Bytes) : Bool := isSameHeader cm n contentLengthName
+
+/-- `encodeHeaders` prints, in order, exactly the headers NOT in the Content-Length class. -/
+theorem encodeHeaders_eq (cm : List (Bytes × Bytes)) (hs : List Header) :
+    encodeHeaders cm hs = ((hs.filter (fun h => !isCL cm h.name)).map headerLine).flatten := by
+  induction hs with
+  | nil => rfl
+  | cons h hs ih =>
+    by_cases hc : isSameHeader cm h.name contentLengthName = true
+    · simp [encodeHeaders, isCL, hc, ih]
+    · simp [encodeHeaders, isCL, hc, ih, headerLine]
+
+theorem contentLength_prefix : contentLengthName ++ [58, 32] = str "Content-Length: " := by decide +kernel
+
+/-- `Message.bytes`: first line, the header lines outside the Content-Length class, then exactly
+one `Content-Length: <number of body bytes>`, the empty line, the body. -/
+theorem C01_one_content_length (cm : List (Bytes × Bytes)) (m : Message) :
+    m.bytes cm =
+      encodeFirstLine m.start
+      ++ ((m.headers.filter (fun h => !isCL cm h.name)).map headerLine).flatten
+      ++ str "Content-Length: " ++ natToBytes m.body.length ++ crlf ++ crlf ++ m.body := by
+  unfold Message.bytes
+  rw [encodeHeaders_eq, ← contentLength_prefix]
+  simp only [List.append_assoc]
+
+/-- the printed number reads back as the number of body bytes (inside int64) -/
+theorem C01_content_length_value (m : Message) (h : m.body.length ≤ 9223372036854775807) :
+    atoi (natToBytes m.body.length) = some (Int.ofNat m.body.length) :=
+  Lemmas.atoi_natToBytes _ h
+
+/-- No line printed from the header list belongs to the Content-Length class. -/
+theorem C01_no_listed_content_length (cm : List (Bytes × Bytes)) (hs : List Header) :
+    ∀ h ∈ hs.filter (fun h => !isCL cm h.name), isCL cm h.name = false := by
+  intro h hm
+  simpa using (List.mem_filter.mp hm).2
+
+/-- The printed lines of the not-owned headers are a function of `others`: equal `others` means the
+same lines (name, ": ", value, CRLF), same multiplicity, same order. -/
+theorem C01_printed_others (cm : List (Bytes × Bytes)) (hs : List Header) :
+    (hs.filter (fun h => !owned cm h.name && !isCL cm h.name)).map headerLine =
+      ((others cm hs).filter (fun p => !isCL cm p.1)).map (fun p => p.1 ++ [58, 32] ++ p.2 ++ crlf) := by
+  induction hs with
+  | nil => rfl
+  | cons h hs ih =>
+    rw [others_cons]
+    by_cases ho : owned cm h.name = true
+    · simp [ho, ih]
+    · by_cases hc : isCL cm h.name = true
+      · simp [ho, hc, ih]
+      · simp [ho, hc, ih, headerLine]
+
+/-- The bytes on the wire, start to end: everything except the owned header lines is determined by
+the message RECEIVED. -/
+theorem C01_wire (cfg : Cfg) (st : St) (ev : RawEv) (hr : RoundTrips cfg.cm ev.msg.headers) :
+    ∀ o ∈ (step cfg st ev).2, ∃ hs' : List Header,
+      outData o =
+        encodeFirstLine ev.msg.start
+        ++ ((hs'.filter (fun h => !isCL cfg.cm h.name)).map headerLine).flatten
+        ++ str "Content-Length: " ++ natToBytes ev.msg.body.length ++ crlf ++ crlf ++ ev.msg.body ∧
+      (hs'.filter (fun h => !owned cfg.cm h.name && !isCL cfg.cm h.name)).map headerLine =
+        (ev.msg.headers.filter (fun h => !owned cfg.cm h.name && !isCL cfg.cm h.name)).map headerLine := by
+  intro o ho
+  obtain ⟨m', hd, hs, hb, hothers⟩ := C01_step cfg st ev hr o ho
+  refine ⟨m'.headers, ?_, ?_⟩
+  · rw [hd, C01_one_content_length, hs, hb]
+  · rw [C01_printed_others, C01_printed_others, hothers]
+
+/-! ### non-vacuity on the sample configuration -/
+
+open Lemmas.Sample in
+/-- the sample messages satisfy `RoundTrips` (compact `f`, full `To`, `CSeq`) -/
+example : RoundTrips cfg.cm invite.headers ∧ RoundTrips cfg.cm bye.headers ∧ RoundTrips cfg.cm routed.headers ∧
+    RoundTrips cfg.cm resp.headers := by
+  refine ⟨?_, ?_, ?_, ?_⟩ <;> exact roundTrips_of_check _ _ (by decide +kernel)
+open Lemmas.Sample in
+/-- they do produce an output (backend, Route hop, Via chain), and `others` is far from empty:
+for `invite` it lists Max-Forwards, X-Foo, f, To, Call-ID, CSeq, X-Foo, Content-Length -/
+example : (step cfg st (ev invite)).2.length = 1 ∧ (step cfg st (ev routed)).2.length = 1 ∧
+    (step cfg st (ev resp)).2.length = 1 ∧
+    (others cfg.cm invite.headers).map (·.1) =
+      [str "Max-Forwards", str "X-Foo", str "f", str "To", str "Call-ID", str "CSeq", str "X-Foo",
+       str "Content-Length"] := by decide +kernel
+open Lemmas.Sample in
+/-- `RoundTrips` is a real restriction: a blank before the From parameters does not survive
+decode-then-encode, and then `others` does change (so the hypothesis cannot be dropped). -/
+example :
+    let m : Message := { invite with headers := [raw "From" "<sip:alice@a.example> ;tag=1", raw "To" "<sip:b@c>;tag=2",
+                                                 raw "Call-ID" "x"] }
+    others cfg.cm (getDialog cfg.cm m).2.headers ≠ others cfg.cm m.headers := by decide +kernel
+
 end Props.C01
